@@ -1363,6 +1363,7 @@ func run(seed int64, n int, dir string, _ []string) {
 
 	naturalMatrix(g, pr, o, n)
 	namedRefCases(g, pr, o, n)
+	nearIdenticalItemCases(g, pr, o, n)
 	precedenceSessions(g, o, n)
 	lawStreams(g, pr, o, n)
 }
